@@ -34,6 +34,11 @@ Sign(text, existing, signers) ==
         new == [i \in 1..Len(signers) |-> SigLine(signers[i].name, signers[i].hash, signers[i].id, text, <<"new", signers[i].id, text>>)]
     IN [lines |-> text \o <<Blank>> \o kept \o new, finalnl |-> TRUE]
 
+\* ---- signing a note that was opened before ----
+\* Opening partitions the signature lines into verified and unverified; signing the opened note keeps the
+\* verified ones, then the unverified ones, each unless replaced by a new signer, then the new signatures.
+SigsOf(ls) == SelectSeq(ls, LAMBDA s : s.k = "sig")
+
 \* ---- Open ----
 \* known: [keys: set of keys trusted, liar: BOOLEAN (the Verifiers answers every lookup with a verifier of another name)]
 Candidates(known, name, hash) == {v \in known.keys : v.name = name /\ v.hash = hash}
@@ -72,4 +77,14 @@ Open(msg, known) ==
          IF j = Len(ls) \/ ~msg.finalnl THEN Malformed
          ELSE Walk(SubSeq(ls, j + 1, Len(ls)), SubSeq(ls, 1, j - 1), known,
                    [sigs |-> <<>>, unsigs |-> <<>>, seen |-> {}, seenun |-> {}, n |-> 0])
+
+\* the signature lines of Sign(Open(Sign(text, <<>>, first), known), second): honest signers, unambiguous keys
+Resign(text, first, known, second) ==
+    LET m0 == Sign(text, <<>>, first)
+        ls == SigsOf(SubSeq(m0.lines, Len(text) + 2, Len(m0.lines)))
+        isKnown(s) == Candidates(known, s.name, s.hash) # {}
+        ver == SelectSeq(ls, isKnown)
+        unv == SelectSeq(ls, LAMBDA s : ~isKnown(s))
+        m1 == Sign(text, ver \o unv, second)
+    IN SigsOf(SubSeq(m1.lines, Len(text) + 2, Len(m1.lines)))
 =============================================================================
